@@ -8,3 +8,4 @@ pub mod words;
 pub mod corrupt;
 pub mod models;
 pub mod rdhwalk;
+pub mod faults;
